@@ -101,6 +101,8 @@ def _gen_spec(rng, stream):
         else:
             line = line + rng.choice(["\r\n", "\n", "\r"])
     ln = rng.choice([None, 1, 7, 7, 42])
+    if rng.random() < 0.03:
+        spec_names, scheme = None, None        # neither column names nor a scheme: ValueError in every mode
     return {"line": line, "names": spec_names, "scheme": scheme, "ln": ln}
 
 
@@ -125,6 +127,11 @@ def _gen_writer(rng, stream):
             specs.append({"line": line.replace("\n", " "), "names": None, "scheme": GDC, "ln": rng.choice([None, 3])})
         else:
             names = ["a", "b", "c"] if rng.random() < 0.7 else ["a", "b"]
+            if flavour != "gdc" and rng.random() < 0.3:
+                # names a scheme-less writer cannot put on the column line (first name starting with '#', a name with
+                # TAB / CR / LF) and look-alikes it can ('#' in a later name)
+                names = rng.choice([["#a", "b"], ["a", "#b"], ["a\tx", "b"], ["a", "b\r"], ["a\nb", "c"], ["#", "b"],
+                                    ["a", "b\tc", "d"], ["a b", "c"]])
             line = "\t".join(rng.choice(["x", "y", ""]) for _ in names)
             if stream != "valid" and rng.random() < 0.4:
                 line = _spoil(rng, line).replace("\n", " ")
@@ -180,6 +187,12 @@ def corpus():
                   "scheme": ["norestr", ["Hugo_Symbol", "Chromosome", "Start_Position"]], "ln": None},
          "reset": True, "vscheme": ["builtin", "gdc-1.0.0"],
          "tamper": [["key", "Start_Position", "Hugo_Symbol"], ["idx", "Start_Position", 0]]},
+        {"kind": "line", "stream": "corpus", "spec": {"line": "1\t2", "names": None, "scheme": None, "ln": 3}},
+        # a scheme-less writer refuses names the column line cannot carry (ValueError, nothing written, still scheme-less)
+        {"kind": "writer", "stream": "corpus", "hlines": ["#center x"], "channel": "fd",
+         "specs": [{"line": "1\t2", "names": ["#a", "b"], "scheme": None, "ln": None},
+                   {"line": "1\t2", "names": ["a\tx", "b"], "scheme": None, "ln": None},
+                   {"line": "1\t2", "names": ["a", "#b"], "scheme": None, "ln": None}]},
         # a sorting writer (assume_sorted=False): records with errors are re-read when it is closed
         {"kind": "writer", "stream": "corpus", "hlines": ["#sort.order Coordinate"], "channel": "sorted",
          "specs": [{"line": "chr1\t5\t5", "names": ["Chromosome", "Start_Position", "End_Position"], "scheme": None, "ln": None},
@@ -426,6 +439,9 @@ def _writer(S, L, T, out):
         if S["init"][1][0] == "MafFormatException":
             out.append("writer-silent-raised-format-exception")
         return
+    for name, o in (("silent", S), ("lenient", L), ("strict", T)):
+        if o.get("_header_is_the_header") is False:
+            out.append("writer-%s-header()-is-not-the-header-it-was-given" % name)
     if (L["init"], L.get("adds") and [a["res"] for a in L["adds"]], L.get("out")) != \
        (S["init"], S.get("adds") and [a["res"] for a in S["adds"]], S.get("out")):
         out.append("writer-lenient-differs-from-silent")
